@@ -641,6 +641,11 @@ fn run_section_loose(c: &Case, rng: &mut Rng) {
         return;
     }
     let arg = if rng.chance(0.25) { None } else { Some(t) };
+    section_against_face_crossings(c, &plane, arg, clear, "section.loose_tolerance");
+}
+
+/// the section by `plane` (which clears every vertex) against the crossing segments of the faces
+fn section_against_face_crossings(c: &Case, plane: &Plane3, arg: Option<f64>, clear: f64, op: &str) {
     let (mesh, pl2) = (c.mesh.clone(), plane.clone());
     let res = with_watchdog(move || guarded(|| mesh.section(&pl2, arg).map_err(|e| e.to_string())));
     let mut v = Verdict::new();
@@ -659,7 +664,7 @@ fn run_section_loose(c: &Case, rng: &mut Rng) {
                 }
                 total += cv.length();
             }
-            v.require(wp <= tol, "section.vertices_on_plane_whatever_the_curve_tolerance", || format!("{:?}: a curve vertex is {wp:e} off the plane (curve tolerance {arg:?}, nearest mesh vertex {clear:e} from the plane)", c.kind));
+            v.require(wp <= tol, "section.vertices_on_plane_whatever_the_curve_tolerance", || format!("{:?} of size {:e}: a curve vertex is {wp:e} off the plane (curve tolerance {arg:?}, nearest mesh vertex {clear:e} from the plane)", c.kind, c.scale));
             v.require(ws <= 10.0 * tol, "section.vertices_on_surface_whatever_the_curve_tolerance", || format!("{:?}: {ws:e} (curve tolerance {arg:?})", c.kind));
             let want = {
                 let probe = Case { mesh: c.mesh.clone(), kind: c.kind, plane: plane.clone(), clean: true, open_section: false, watertight: true, scale: c.scale };
@@ -667,14 +672,50 @@ fn run_section_loose(c: &Case, rng: &mut Rng) {
             };
             let wlen: f64 = want.iter().map(|s| (s.1 - s.3).norm()).sum();
             if !want.is_empty() && wlen > 10.0 * arg.unwrap_or(1e-6) {
-                v.require(!curves.is_empty(), "section.not_empty_when_the_plane_crosses", || format!("{:?}: {} face crossings of total length {wlen}, no curve (curve tolerance {arg:?})", c.kind, want.len()));
+                v.require(!curves.is_empty(), "section.not_empty_when_the_plane_crosses", || format!("{:?} of size {:e}: {} face crossings of total length {wlen}, no curve (curve tolerance {arg:?}, nearest mesh vertex {clear:e} from the plane)", c.kind, c.scale, want.len()));
             }
             let slack = 2.0 * arg.unwrap_or(1e-6) * (want.len() as f64 + 1.0) + 1e-8 * (1.0 + wlen);
             v.require((total - wlen).abs() <= slack, "section.length_is_the_length_of_the_face_crossings", || format!("{:?}: {total} vs {wlen} (curve tolerance {arg:?})", c.kind));
         }
     }
-    emit_oracle_only("section.loose_tolerance", &Tok::new(), &Tok::new(), &v);
+    emit_oracle_only(op, &Tok::new(), &Tok::new(), &v);
 }
+
+/// meshes of every size (a part modelled in micrometres or in metres): the vertex-on-plane snap of the
+/// section is an absolute 1e-6, so a plane that clears every vertex by more than that cuts every face it
+/// crosses, whatever the size of the mesh
+fn run_section_scaled(rng: &mut Rng) {
+    let base = match rng.below(4) {
+        0 => (Mesh::create_box(rng.range(0.5, 5.0), rng.range(0.5, 5.0), rng.range(0.5, 5.0), false), Kind::Box),
+        1 => (prism(rng, true), Kind::ConvexPrism),
+        2 => (gen::sphere(rng.range(0.5, 3.0), rng.int(4, 10) as usize, rng.int(3, 7) as usize), Kind::Sphere),
+        _ => (gen::torus(rng.range(2.0, 4.0), rng.range(0.3, 1.0), rng.int(5, 12) as usize, rng.int(4, 8) as usize), Kind::Torus),
+    };
+    let f: f64 = *rng.pick(&[1e-2, 0.1, 30.0, 400.0, 2000.0, 3e4]);
+    let t = gen::iso3(rng, 3.0);
+    let verts: Vec<Point3> = base.0.vertices().iter().map(|p| Point3::from((t * p).coords * f)).collect();
+    let mesh = Mesh::new(verts, base.0.faces().to_vec(), false);
+    let vs = mesh.vertices();
+    let mut lo = vs[0].coords;
+    let mut hi = vs[0].coords;
+    for p in vs {
+        lo = lo.inf(&p.coords);
+        hi = hi.sup(&p.coords);
+    }
+    let scale = (hi - lo).norm();
+    let n = if rng.chance(0.4) { UnitVec3::new_normalize(*rng.pick(&[Vector3::x(), Vector3::y(), Vector3::z()])) } else { UnitVec3::new_normalize(rvec(rng)) };
+    let pv = vs[rng.below(vs.len())];
+    // beside a vertex by a few micrometres to a millimetre, whatever the size of the mesh
+    let delta = 10f64.powf(rng.range(-5.3, -3.0)) * if rng.chance(0.5) { 1.0 } else { -1.0 };
+    let plane = Plane3::new(n, n.dot(&pv.coords) + delta);
+    let clear = vs.iter().map(|p| plane.signed_distance_to_point(p).abs()).fold(f64::INFINITY, f64::min);
+    if clear < 3e-6 {
+        return;
+    }
+    let c = Case { mesh, kind: base.1, plane: plane.clone(), clean: true, open_section: false, watertight: true, scale };
+    section_against_face_crossings(&c, &plane, Some(1e-9), clear, "section.scaled");
+}
+
 
 /// a case that may never return is run in a child process with a memory cap and a time limit
 fn run_isolated(state: u64, c: &Case) {
@@ -747,6 +788,7 @@ pub fn run(rng: &mut Rng, n: usize, child: bool, seed: u64, thorough: bool) {
                 } else {
                     run_section(&c, rng);
                     run_section_loose(&c, rng);
+                    run_section_scaled(rng);
                     // the index pairs parry produced for this section, through chained_indices
                     if let parry3d_f64::query::IntersectResult::Intersect(pl) = c.mesh.tri_mesh().intersection_with_local_plane(&c.plane.normal, c.plane.d, 1.0e-6) {
                         chain_case(rng, pl.indices().to_vec(), "parry polyline");
